@@ -8,6 +8,7 @@ CONSTANTS
  MaxGen = 100
  DirUsable = TRUE
  IoFaults = 100
+ WriteFaults = 100
  EarlyHandBack = TRUE
  MaxSilent = 12
  TraceFile = "trace.ndjson"
